@@ -386,6 +386,8 @@ def run_case(R, seed, idx, tier, only=None):
                viol=[], keys=set(), ref_sites=set(), inj_sites=set(), probes={}, faults={}, T=0, exhaustive=False,
                sample=None)
     probes = out['probes']
+    import hashlib      # pylint: disable=import-outside-toplevel
+    oh = hashlib.sha1()
 
     def probe(name, n=1):
         probes[name] = probes.get(name, 0) + n
@@ -407,6 +409,10 @@ def run_case(R, seed, idx, tier, only=None):
         out['execs'] += 1
         out['steps'] += k
         st = res.get('status')
+        oh.update(("%s/%d/%s/%s/%s|" % (event, k, driver, st, (res.get('fired') or {}).get('site'))).encode())
+        for rr in res.get('renderings') or ():
+            oh.update(rr['name'].encode())
+            oh.update((rr.get('text') if isinstance(rr.get('text'), str) else str(rr.get('exc'))).encode('utf-8', 'replace'))
         if st == 'completed':
             if res.get('fired') is not None:
                 probe('swallowed_unraisable')
@@ -521,6 +527,7 @@ def run_case(R, seed, idx, tier, only=None):
         out['viol'] = []
         return out
     out['explored'] = True
+    out['outcome_hash'] = oh.hexdigest()[:16]
     return out
 
 
